@@ -105,7 +105,9 @@ Qed.
 Ltac perm_count :=
   unfold tok, tid, qid in *;
   repeat match goal with
-         | H : Permutation _ _ |- _ => apply (Permutation_count_occ Nat.eq_dec) in H
+         | H : Permutation _ _ |- _ =>
+           let Q := fresh "Q" in
+           pose proof (proj1 (Permutation_count_occ Nat.eq_dec _ _) H) as Q; clear H
          end;
   apply (Permutation_count_occ Nat.eq_dec);
   let x := fresh "x" in
@@ -532,3 +534,136 @@ Proof.
     rewrite map_upd. destruct (concat_upd_perm _ g _ (held (k 0)) Hm) as (R & P1 & P2).
     perm_count.
 Qed.
+
+Lemma grun_inv sf n sched st st' es :
+  inv n st -> grun sf st sched = Some (st', es) -> inv n st'.
+Proof.
+  revert st es; induction sched as [|[g c] rest IH]; intros st es Hi H; cbn in H.
+  - inversion H; subst; auto.
+  - destruct (gstep sf st g c) as [[st1 es1]|] eqn:E1; [|discriminate].
+    destruct (grun sf st1 rest) as [[st2 es2]|] eqn:E2; [|discriminate].
+    inversion H; subst. eapply IH; [|exact E2]. eapply gstep_inv; eauto.
+Qed.
+
+Lemma concat_repeat_nil {A} k : concat (repeat (@nil A) k) = [].
+Proof. induction k; cbn; auto. Qed.
+
+Lemma initial_held th : initial th -> held th = [] /\ wf th.
+Proof.
+  destruct th; cbn; try contradiction; auto.
+  - intros [Hl ->]. rewrite Nat.sub_0_r. split; [apply skipn_all2; lia|lia].
+  - intros [Hl ->]. split; [reflexivity|lia].
+Qed.
+
+Lemma init_inv n nq threads : Forall initial threads -> inv n (init_state n nq threads).
+Proof.
+  intros H. unfold inv, all_toks, owned, init_state; cbn [pool qs ths leaked]. split.
+  - rewrite concat_repeat_nil. cbn [app].
+    assert (E : concat (map held threads) = []).
+    { induction H as [|th l Hth _ IH]; cbn; auto.
+      destruct (initial_held _ Hth) as [-> _]. auto. }
+    rewrite E, app_nil_r. reflexivity.
+  - induction H as [|th l Hth _ IH]; constructor; auto. now destruct (initial_held _ Hth).
+Qed.
+
+(** What the invariant means. *)
+Lemma inv_nodup n st : inv n st -> NoDup (all_toks st).
+Proof. intros [H _]. eapply Permutation_NoDup; [symmetry; exact H|apply seq_NoDup]. Qed.
+
+Lemma inv_once n st t : inv n st -> t < n -> count_occ Nat.eq_dec (all_toks st) t = 1.
+Proof.
+  intros Hi Ht. pose proof (inv_nodup _ _ Hi) as Hn.
+  rewrite (NoDup_count_occ' Nat.eq_dec) in Hn. apply Hn.
+  destruct Hi as [Hp _]. eapply Permutation_in; [symmetry; exact Hp|]. apply in_seq. lia.
+Qed.
+
+Lemma inv_range n st t : inv n st -> In t (all_toks st) -> t < n.
+Proof.
+  intros [Hp _] Hin. apply (Permutation_in _ Hp) in Hin. apply in_seq in Hin. lia.
+Qed.
+
+Lemma inv_count n st :
+  inv n st ->
+  length (leaked st) + length (pool st) + length (concat (qs st)) +
+  length (concat (map held (ths st))) = n.
+Proof.
+  intros [Hp _]. apply Permutation_length in Hp. unfold all_toks, owned in Hp.
+  rewrite !app_length, seq_length in Hp. lia.
+Qed.
+
+(** Without a serialization failure in bfdSend.Send nothing is ever lost. *)
+Lemma tstep_no_leak th c t k : tstep false th c = Some (ALeak t, k) -> False.
+Proof.
+  intros H. destruct th; destruct c; cbn [tstep] in H; try discriminate;
+    unfold try_send in H;
+    repeat match type of H with
+           | context [if ?b then _ else _] => destruct b
+           | context [match ?x with _ => _ end] => destruct x
+           end; discriminate.
+Qed.
+
+Lemma gstep_leaked st g c st' es :
+  gstep false st g c = Some (st', es) -> leaked st' = leaked st.
+Proof.
+  unfold gstep. destruct (nth_error (ths st) g) as [th|]; [|discriminate].
+  destruct (tstep false th c) as [[a k]|] eqn:Ht; [|discriminate].
+  destruct a; intros H;
+    repeat match type of H with
+           | context [if ?b then _ else _] => destruct b
+           | context [match ?x with _ => _ end] => destruct x
+           end; try discriminate; inversion H; subst; auto.
+  exfalso. eapply tstep_no_leak; eauto.
+Qed.
+
+Lemma grun_leaked sched st st' es :
+  grun false st sched = Some (st', es) -> leaked st' = leaked st.
+Proof.
+  revert st es; induction sched as [|[g c] rest IH]; intros st es H; cbn in H.
+  - inversion H; auto.
+  - destruct (gstep false st g c) as [[st1 es1]|] eqn:E1; [|discriminate].
+    destruct (grun false st1 rest) as [[st2 es2]|] eqn:E2; [|discriminate].
+    inversion H; subst. rewrite (IH _ _ E2). eapply gstep_leaked; eauto.
+Qed.
+
+(** ** One goroutine on its own: what it obtained is what it gave back. *)
+Definition recv_tok (a : action) (t : tok) : tok :=
+  match a with AGet | ADeq _ => t | _ => 0 end.
+Definition acq_of (a : action) (t : tok) : list tok :=
+  match a with AGet | ADeq _ => [t] | _ => [] end.
+Definition rel_of (a : action) : list tok :=
+  match a with APut t | AEnq t _ => [t] | _ => [] end.
+Definition lost_of (a : action) : list tok :=
+  match a with ALeak t => [t] | _ => [] end.
+
+(** [lrun sf th acq rel lost th']: goroutine [th] makes some steps of its own,
+    obtaining the buffers [acq] (from the pool or a queue, whatever they are),
+    returning or enqueueing [rel], dropping [lost], and ends in [th']. *)
+Inductive lrun (sf : bool) : thread -> list tok -> list tok -> list tok -> thread -> Prop :=
+| lrun_nil th : lrun sf th [] [] [] th
+| lrun_step th c a k t acq rel lost th' :
+    tstep sf th c = Some (a, k) ->
+    lrun sf (k (recv_tok a t)) acq rel lost th' ->
+    lrun sf th (acq_of a t ++ acq) (rel_of a ++ rel) (lost_of a ++ lost) th'.
+
+Lemma lrun_balance sf th acq rel lost th' :
+  wf th -> lrun sf th acq rel lost th' ->
+  wf th' /\ Permutation (acq ++ held th) (rel ++ lost ++ held th').
+Proof.
+  intros Hwf H. induction H as [th|th c a k t acq rel lost th' Hs Hr IH].
+  - split; auto.
+  - destruct (tstep_disciplined _ _ _ _ _ Hwf Hs) as [Hd Hwk].
+    destruct (IH (Hwk _)) as [Hw' Hp]. split; auto.
+    destruct a; cbn [disciplined recv_tok acq_of rel_of lost_of] in *;
+      try (destruct Hd as [Hd _]); try specialize (Hd t); perm_count.
+Qed.
+
+(** Loop heads at which a goroutine holds nothing. *)
+Definition empty_handed (th : thread) : Prop :=
+  match th with
+  | PTop _ _ | PWait _ _ | PDone | STop _ | SWait _ | SDone | BIdle
+  | ITop _ | IDrain _ | IDone | RDone | WDone => True
+  | _ => False
+  end.
+
+Lemma empty_handed_held th : empty_handed th -> held th = [].
+Proof. destruct th; cbn; try contradiction; auto. Qed.
